@@ -407,6 +407,12 @@ def reshape(tens, shape, eps=1e-16, rmax=sys.maxsize):
             cores_new[-1] = tn.einsum(
                 'ijkl,lm->ijkm', cores_new[-1], cores[k][:, 0, 0, :])
 
+        idx_shape += 1
+        while idx_shape < len(shape):
+            cores_new.append(
+                tn.ones((1, 1, 1, 1), dtype=cores_new[-1].dtype, device=cores_new[-1].device))
+            idx_shape += 1
+
     else:
         if np.prod(tens.N) != np.prod(shape):
             raise ShapeMismatch(
